@@ -167,31 +167,82 @@ func buildGraph(rc resolve.Client, root resolve.VersionKey, s *state) (*resolve.
 		rootPackage: g.AddNode(root),
 	}
 
+	// extras holds, for every connected package, the extras asked of it by
+	// requirements that still stand.
+	extras := make(map[resolve.PackageKey]map[string]bool)
+	// stands reports whether the i'th requirement recorded in crit still
+	// stands: the version that made it is connected (a requirement left by a
+	// replaced pin does not count), and a requirement guarded by an extra is
+	// among that version's dependencies given the extras that standing
+	// requirements ask of it. (In pip a package with extras is a candidate of
+	// its own, which drops out of the result with the requirement that asked
+	// for it.)
+	stands := func(crit criterion, i int) (bool, error) {
+		parent := crit.informationParents[i]
+		if parent != (resolve.VersionKey{}) && !connected[parent] {
+			return false, nil
+		}
+		env, ok := crit.informationReqs[i].Type.GetAttr(dep.Environment)
+		if !ok {
+			return true, nil
+		}
+		m, err := parseMarker(env)
+		if err != nil {
+			return false, err
+		}
+		if m.Eval(nil) {
+			return true, nil
+		}
+		for e, on := range extras[parent.PackageKey] {
+			if on && m.Eval(map[string]bool{e: true}) {
+				return true, nil
+			}
+		}
+		return false, nil
+	}
+
 	// Find the pinned versions that can reach the root, by propagating from
 	// the root until nothing changes. (A depth-first search from each version
 	// that remembers "not connected" goes wrong on cycles: a version met while
 	// its cycle is still being explored is recorded as unconnected, although
 	// another member of the cycle turns out to be connected afterwards.)
-	for changed := true; changed; {
+	var standsErr error
+	for changed := true; changed && standsErr == nil; {
 		changed = false
 		s.mapping.Iterate(func(p resolve.PackageKey, v resolve.VersionKey) {
-			if connected[v] {
-				return
-			}
 			crit, ok := s.criteria.Get(p)
 			if !ok {
 				return
 			}
-			for _, parent := range crit.informationParents {
-				// Only the root and pinned versions are ever connected, so a
-				// requirement left by a replaced pin does not count.
-				if connected[parent] {
+			for i, req := range crit.informationReqs {
+				ok, err := stands(crit, i)
+				if err != nil {
+					standsErr = err
+					return
+				}
+				if !ok {
+					continue
+				}
+				if !connected[v] {
 					connected[v] = true
 					changed = true
-					return
+				}
+				if es, ok := req.Type.GetAttr(dep.EnabledDependencies); ok {
+					for _, e := range strings.Split(es, ",") {
+						if !extras[p][e] {
+							if extras[p] == nil {
+								extras[p] = make(map[string]bool)
+							}
+							extras[p][e] = true
+							changed = true
+						}
+					}
 				}
 			}
 		})
+	}
+	if standsErr != nil {
+		return nil, standsErr
 	}
 
 	// Add all the nodes that can reach the root.
@@ -223,17 +274,17 @@ func buildGraph(rc resolve.Client, root resolve.VersionKey, s *state) (*resolve.
 		}
 		for i, req := range crit.informationReqs {
 			parent := crit.informationParents[i]
-			var from resolve.NodeID
-			if parent == (resolve.VersionKey{}) {
-				from = ids[rootPackage]
-			} else {
-				f, ok := ids[parent.PackageKey]
-				if !ok {
-					// This means the parent is not connected to the
-					// root for some reason. Skip it.
-					continue
-				}
-				from = f
+			if ok, err := stands(crit, i); err != nil {
+				return nil, err
+			} else if !ok {
+				// The version that made the requirement is not in the
+				// graph, or the extra that guards it is no longer asked
+				// for. Skip it.
+				continue
+			}
+			from := ids[rootPackage]
+			if parent != (resolve.VersionKey{}) {
+				from = ids[parent.PackageKey]
 			}
 			rvk := req.VersionKey
 			if err := g.AddEdge(from, to, rvk.Version, req.Type); err != nil {
